@@ -25,7 +25,7 @@ fn tiny_limits() -> Limits {
         max_block_size: 100,
         widths: gen::WIDTHS.to_vec(),
         channel_choices: vec![1, 2, 2, 3],
-        opts: ConfigOpts { multithread: Some(false), min_max_parameter: 4 },
+        opts: ConfigOpts { multithread: Some(false), min_max_parameter: 4, no_experimental: false },
     }
 }
 
@@ -66,7 +66,7 @@ fn tiny_par_scenario(seed: u64, idx: u64, faulty: bool) -> Scenario {
             }
         }
     }
-    let mut cfg = gen::gen_config(&mut rng, &ConfigOpts { multithread: Some(true), min_max_parameter: 6 });
+    let mut cfg = gen::gen_config(&mut rng, &ConfigOpts { multithread: Some(true), min_max_parameter: 6, no_experimental: false });
     cfg.subframe_coding.qlpc.lpc_order = cfg.subframe_coding.qlpc.lpc_order.min(6);
     cfg.block_size = block;
     let nreads = (len + block - 1) / block;
